@@ -308,6 +308,60 @@ func (w *World) newEctx() *ectx { return &ectx{m: map[ssa.Value]bool{}, sub: w.s
 
 func (w *World) expr(v ssa.Value) string { return exprD(v, 0, w.newEctx()) }
 
+// resolveResult renders v; when v is result #i of a static call to an in-module function whose
+// non-constant returns for that result all render (with parameters replaced by the call's arguments)
+// as one expression, that expression is returned instead — a lookup helper is transparent.
+func (w *World) resolveResult(v ssa.Value) string {
+	ex, ok := stripConv(v).(*ssa.Extract)
+	if !ok {
+		return w.expr(v)
+	}
+	call, ok := ex.Tuple.(*ssa.Call)
+	if !ok {
+		return w.expr(v)
+	}
+	h := staticCallee(call)
+	if h == nil || h.Blocks == nil || !strings.HasPrefix(pkgPathOf(h), modPath) {
+		return w.expr(v)
+	}
+	args := call.Common().Args
+	if len(args) != len(h.Params) {
+		return w.expr(v)
+	}
+	sub := map[ssa.Value]string{}
+	for i, p := range h.Params {
+		sub[p] = w.expr(args[i])
+	}
+	saved := w.subst
+	w.subst = sub
+	defer func() { w.subst = saved }()
+	seen := map[string]bool{}
+	var one string
+	for _, b := range h.Blocks {
+		if len(b.Instrs) == 0 {
+			continue
+		}
+		ret, ok := b.Instrs[len(b.Instrs)-1].(*ssa.Return)
+		if !ok || ex.Index >= len(ret.Results) {
+			continue
+		}
+		r := ret.Results[ex.Index]
+		if _, isConst := stripConv(r).(*ssa.Const); isConst {
+			continue
+		}
+		s := w.expr(r)
+		if !seen[s] {
+			seen[s] = true
+			one = s
+		}
+	}
+	if len(seen) == 1 {
+		return one
+	}
+	w.subst = saved
+	return w.expr(v)
+}
+
 func stripConv(v ssa.Value) ssa.Value {
 	for {
 		switch x := v.(type) {
@@ -527,6 +581,11 @@ func callExpr(x ssa.CallInstruction, d int, seen *ectx) string {
 	var args []string
 	for _, a := range callArgs(x) {
 		args = append(args, exprD(a, d+1, seen))
+	}
+	// min/max helpers are commutative: canonical argument order
+	if f := c.StaticCallee(); f != nil && len(args) == 2 && f.Pkg != nil && strings.HasSuffix(f.Pkg.Pkg.Path(), "/libs/math") &&
+		(strings.HasPrefix(f.Name(), "Min") || strings.HasPrefix(f.Name(), "Max")) && args[0] > args[1] {
+		args[0], args[1] = args[1], args[0]
 	}
 	as := "(" + strings.Join(args, ", ") + ")"
 	if c.IsInvoke() {
